@@ -19,6 +19,7 @@ import (
 type sgen struct {
 	r     *common.Rand
 	lossy bool
+	only  string // the single lossy construct of this case; "" = any
 	s     *sd.Schema
 
 	scalars, enums, inputs, ifaces, objects, unions []string
@@ -35,6 +36,11 @@ var allLocations = []string{"QUERY", "MUTATION", "SUBSCRIPTION", "FIELD", "FRAGM
 	"ARGUMENT_DEFINITION", "INTERFACE", "UNION", "ENUM", "ENUM_VALUE", "INPUT_OBJECT", "INPUT_FIELD_DEFINITION"}
 
 func (g *sgen) feat(n string) { g.features[n]++ }
+
+// on reports whether the lossy construct `what` may be used in this case
+func (g *sgen) on(what string) bool { return g.lossy && (g.only == "" || g.only == what) }
+
+var lossyKinds = []string{"iface", "repeatable", "ivdep", "specified", "oneof", "escapes", "null", "blockquote", "collision", "builtin", "rootname"}
 
 func (g *sgen) wrap(base string, maxDepth int) *sd.Ty {
 	t := sd.Named(base)
@@ -64,7 +70,7 @@ func (g *sgen) strVal() *sd.Val {
 	case k < 7:
 		g.feat("default_string_escapes")
 		return &sd.Val{Kind: "str", Raw: common.PickOf(g.r, escapedStrings)}
-	case k < 9 || !g.lossy:
+	case k < 9 || !g.on("blockquote"):
 		g.feat("default_block_string")
 		return &sd.Val{Kind: "str", Raw: common.PickOf(g.r, blockStrings), Block: true}
 	}
@@ -156,7 +162,7 @@ func (g *sgen) deprecated(forceClean bool) sd.Dir {
 	switch {
 	case k < 3:
 		g.feat("deprecated_no_reason")
-	case k < 8 || !g.lossy || forceClean:
+	case k < 8 || !g.on("escapes") || forceClean:
 		g.feat("deprecated_reason")
 		v := &sd.Val{Kind: "str", Raw: common.PickOf(g.r, plainReasons)}
 		if g.r.Chance(1, 6) {
@@ -237,7 +243,7 @@ func (g *sgen) inputValue(name string, loc string) sd.IV {
 		iv.Default = g.value(iv.Type, 2)
 		g.feat("default_value")
 	}
-	if g.lossy && g.r.Chance(1, 6) {
+	if g.on("ivdep") && g.r.Chance(1, 4) {
 		iv.Dirs = append(iv.Dirs, g.deprecated(false))
 		g.feat("deprecated_input_value")
 	}
@@ -262,7 +268,11 @@ func (g *sgen) field(name string) sd.FD {
 }
 
 func genSchema(r *common.Rand, lossy bool) (*sd.Schema, map[string]int) {
-	g := &sgen{r: r, lossy: lossy, s: &sd.Schema{}, enumVals: map[string][]string{}, inputDefs: map[string]*sd.TD{}, features: map[string]int{}}
+	only := ""
+	if lossy && !r.Chance(1, 6) {
+		only = common.PickOf(r, lossyKinds)
+	}
+	g := &sgen{r: r, lossy: lossy, only: only, s: &sd.Schema{}, enumVals: map[string][]string{}, inputDefs: map[string]*sd.TD{}, features: map[string]int{}}
 	s := g.s
 	pfx := ""
 	if r.Chance(1, 10) {
@@ -310,7 +320,7 @@ func genSchema(r *common.Rand, lossy bool) (*sd.Schema, map[string]int) {
 	if s.Subscription != "" {
 		roots = append(roots, s.Subscription)
 	}
-	if lossy && r.Chance(1, 8) {
+	if g.on("rootname") && r.Chance(1, 2) {
 		// an ordinary object that happens to carry a default root name
 		for _, n := range []string{"Mutation", "Subscription"} {
 			if s.Mutation != n && s.Subscription != n && r.Chance(1, 2) {
@@ -319,7 +329,7 @@ func genSchema(r *common.Rand, lossy bool) (*sd.Schema, map[string]int) {
 			}
 		}
 	}
-	if lossy && r.Chance(1, 12) {
+	if g.on("collision") && r.Chance(1, 4) {
 		g.objects = append(g.objects, "schema")
 		g.feat("type_named_schema")
 	}
@@ -327,7 +337,7 @@ func genSchema(r *common.Rand, lossy bool) (*sd.Schema, map[string]int) {
 	// directive definitions
 	for i, n := 0, r.Pick(4); i < n; i++ {
 		d := sd.DD{Name: fmt.Sprintf("%sdir%d", pfx, i)}
-		if lossy && r.Chance(1, 6) {
+		if g.on("collision") && r.Chance(1, 2) {
 			d.Name = common.PickOf(r, append(append([]string{}, g.ifaces...), g.objects...))
 			g.feat("directive_type_name_collision")
 		}
@@ -342,7 +352,7 @@ func genSchema(r *common.Rand, lossy bool) (*sd.Schema, map[string]int) {
 		if len(d.Locations) > 1 {
 			g.feat("directive_multi_location")
 		}
-		if lossy && r.Chance(1, 3) {
+		if g.on("repeatable") && r.Chance(1, 2) {
 			d.Repeatable = true
 			g.feat("directive_repeatable")
 		}
@@ -356,7 +366,7 @@ func genSchema(r *common.Rand, lossy bool) (*sd.Schema, map[string]int) {
 			g.dirs = append(g.dirs, d)
 		}
 	}
-	if lossy && r.Chance(1, 8) {
+	if g.on("builtin") && r.Chance(1, 2) {
 		switch r.Pick(3) {
 		case 0:
 			g.dirs = append(g.dirs, sd.DD{Name: "oneOf", Locations: []string{"INPUT_OBJECT"}})
@@ -404,7 +414,7 @@ func genSchema(r *common.Rand, lossy bool) (*sd.Schema, map[string]int) {
 				iv.Default = g.value(iv.Type, 2)
 				g.feat("default_value")
 			}
-			if lossy && r.Chance(1, 8) {
+			if g.on("ivdep") && r.Chance(1, 4) {
 				iv.Dirs = append(iv.Dirs, g.deprecated(false))
 				g.feat("deprecated_input_value")
 			}
@@ -418,13 +428,13 @@ func genSchema(r *common.Rand, lossy bool) (*sd.Schema, map[string]int) {
 				f.Default = g.value(f.Type, 2)
 				g.feat("default_value")
 			}
-			if lossy && r.Chance(1, 6) {
+			if g.on("ivdep") && r.Chance(1, 4) {
 				f.Dirs = append(f.Dirs, g.deprecated(false))
 				g.feat("deprecated_input_value")
 			}
 			f.Dirs = append(f.Dirs, g.customDirs("INPUT_FIELD_DEFINITION")...)
 		}
-		if lossy && r.Chance(1, 5) {
+		if g.on("oneof") && r.Chance(1, 2) {
 			t.Dirs = append(t.Dirs, sd.Dir{Name: "oneOf"})
 			g.feat("oneof")
 		}
@@ -441,7 +451,7 @@ func genSchema(r *common.Rand, lossy bool) (*sd.Schema, map[string]int) {
 	g.objects = append(g.objects, roots...) // make roots referable from fields
 	for k, n := range g.ifaces {
 		var impl []string
-		if lossy && k > 0 && r.Chance(1, 2) {
+		if g.on("iface") && k > 0 && r.Chance(2, 3) {
 			p := g.ifaces[r.Pick(k)]
 			impl = append(impl, p)
 			for _, q := range ifaceImpl[p] {
@@ -544,7 +554,7 @@ func genSchema(r *common.Rand, lossy bool) (*sd.Schema, map[string]int) {
 	var scalarTDs []sd.TD
 	for _, n := range g.scalars {
 		t := sd.TD{Kind: "scalar", Name: n, Dirs: g.customDirs("SCALAR")}
-		if lossy && r.Chance(1, 3) {
+		if g.on("specified") && r.Chance(1, 2) {
 			t.Dirs = append(t.Dirs, sd.Dir{Name: "specifiedBy", Args: []sd.Arg{{Name: "url", Val: &sd.Val{Kind: "str", Raw: "https://example.com/spec"}}}})
 			g.feat("specified_by")
 		}
@@ -563,7 +573,7 @@ func genSchema(r *common.Rand, lossy bool) (*sd.Schema, map[string]int) {
 	r.Shuffle(len(all), func(i, j int) { all[i], all[j] = all[j], all[i] })
 	s.Types = all
 	s.Directives = g.dirs
-	if lossy && r.Chance(1, 25) {
+	if g.on("null") && r.Chance(1, 2) {
 		// reason: null panics the generator
 		for i := range s.Types {
 			if s.Types[i].Kind == "enum" {
